@@ -219,16 +219,16 @@ pub fn run_check(prop: &str, tier: &str) -> i32 {
             let mut deep = suites::partition_suites(thorough);
             let plan = crashprops::CrashPlan { crash: false, layout_tag: "C05", nest: 0, reopen_cycles: 0, sector_tear: false, layout: true, probe_auto_ts: false, continue_after: false };
             let (large, rest): (Vec<Suite>, Vec<Suite>) = std::mem::take(&mut deep).into_iter().partition(|s| s.name.starts_with("part-large"));
-            crashprops::crash_check(prop, rest, &["C05"], plan, budget * 0.35, &mut report);
+            crashprops::crash_check(prop, rest, &["C05"], plan, budget * 0.3, &mut report);
             // on the roomy device a key that is lost or unreadable after a clean reopen is damage to
             // stored bytes: the sequential oracle's verdicts count (on the tiny devices a close that
             // cannot flush legitimately loses unflushed writes, which the reference model does not follow)
             let plan = crashprops::CrashPlan { crash: false, layout_tag: "C05", nest: 0, reopen_cycles: 0, sector_tear: false, layout: true, probe_auto_ts: false, continue_after: false };
-            crashprops::crash_check(prop, large, &["C05", "C01"], plan, budget * 0.15, &mut report);
+            crashprops::crash_check(prop, large, &["C05", "C01"], plan, budget * 0.1, &mut report);
             // (2) the same invariants on every store recovered from a crash image
             let s = suites::crash_suites(thorough);
             let plan = crashprops::CrashPlan { crash: true, layout_tag: "C05", nest: 0, reopen_cycles: 0, sector_tear: false, layout: true, probe_auto_ts: false, continue_after: false };
-            crashprops::crash_check(prop, s, &["C05"], plan, budget * 0.35, &mut report);
+            crashprops::crash_check(prop, s, &["C05"], plan, budget * 0.25, &mut report);
             // (3) the partition at quiescence after every schedule of the reader/writer/flush/reuse programs
             let mut progs = c08::programs(false);
             // ... and the persisted counters once every thread's own flush() has returned
@@ -236,7 +236,9 @@ pub fn run_check(prop: &str, tier: &str) -> i32 {
             progs.reverse();
             schedprops::run_programs(progs, 1, 4000, budget * 0.15, &schedprops::judge_linearizable, None, &["C05"], &mut report);
             // (4) batches that fail half-way (no room for the last record / record writes fail), the retry, the refill
-            batchfail::run(&["C05"], thorough, &mut report);
+            if report.violations.is_empty() {
+                batchfail::run(&["C05"], thorough, &mut report);
+            }
         }
         "C07" => {
             let bound = if thorough { 3 } else { 2 };
@@ -266,7 +268,9 @@ pub fn run_check(prop: &str, tier: &str) -> i32 {
             }
             seq_check(prop, tier, seqs, &["C08", "C01"], budget * 0.2, &mut report);
             // batches that fail half-way, the retry, the refill: every key must read back its own bytes
-            batchfail::run(&["C08"], thorough, &mut report);
+            if report.violations.is_empty() {
+                batchfail::run(&["C08"], thorough, &mut report);
+            }
             // labelled sampling supplement: racing overwrites, then scan vs point read at quiescence
             if report.violations.is_empty() {
                 c14::stress_supplement(&mut report, if thorough { 10.0 } else { 2.5 });
@@ -289,6 +293,10 @@ pub fn run_check(prop: &str, tier: &str) -> i32 {
             // the read cache takes its bucket locks itself: every cache call of the narrow-band histories
             // (growth in place past the high mark) runs under the call watchdog as well
             c16::run_fsm_narrow(tier, budget * 0.05, &mut report);
+            // batches that fail half-way and their retries (calls on full / failing devices) under the watchdog
+            if report.violations.is_empty() {
+                batchfail::run(&["C18"], thorough, &mut report);
+            }
             report.set("explanation", "termination oracle: an execution must end with every thread finished within the decision horizon; 'no enabled thread' is a deadlock, the horizon a livelock; contention programs cover concurrent flush callers, flush vs periodic tick, full device, reader held inside a read");
         }
         "C09" => {
@@ -306,7 +314,9 @@ pub fn run_check(prop: &str, tier: &str) -> i32 {
                 c19::failed_backlog_for_c09(&mut report);
             }
             // batches of 2..4 records whose writes fail three times, the retry, the refill
-            batchfail::run(&["C09"], thorough, &mut report);
+            if report.violations.is_empty() {
+                batchfail::run(&["C09"], thorough, &mut report);
+            }
         }
         "C19" => {
             c19::check(tier, budget * 0.5, &mut report);
